@@ -46,8 +46,10 @@ pub fn start_watchdog(alpha_len: u64) {
     });
 }
 
-fn key(v: &GameVersion) -> (u32, char, usize) {
-    (v.major.to_bits(), v.minor, v.patch.unwrap_or(0))
+/// Distinct *representations*: a missing revision and an explicit revision 0 are equal versions
+/// but both must take part in the order axioms (cmp must agree with == on exactly such pairs).
+fn key(v: &GameVersion) -> (u32, char, Option<usize>) {
+    (v.major.to_bits(), v.minor, v.patch)
 }
 
 /// The specified order: number, then letter, then revision (missing = 0).
